@@ -64,6 +64,11 @@ var annots = []annot{{"Plain", "", ""}, {"Redacted", "go.redact", ""}, {"Nolog",
 var annotsRenamed = []annot{{"Plain", "", ""}, {"RedactedRenamed", `go.redact, go.name = "SecretX"`, "SecretX"}, {"NologRenamed", `go.nolog, go.name = "QuietX"`, "QuietX"},
 	{"BothRenamed", `go.name = "HushX", go.nolog, go.redact`, "HushX"}}
 
+// annotsValued: the annotations written with a value (the annotation counts by its
+// presence, whatever text follows the equals sign)
+var annotsValued = []annot{{"Plain", "", ""}, {"RedactedValued", `go.redact = "pii"`, ""}, {"NologValued", `go.nolog = "secret"`, ""}, {"BothValued", `go.redact = "", go.nolog = "1"`, ""},
+	{"RedactedYes", `go.redact = "yes"`, ""}}
+
 // annotOrders: every order in which the four annotation sets can be declared in one struct
 func annotOrders() [][]annot {
 	var out [][]annot
@@ -145,6 +150,13 @@ func extra() (*schema.Program, []target) {
 						n++
 						cur.Defs = append(cur.Defs, &schema.Def{Kind: kd, Name: rn, Fields: fieldsOf(te.T, schema.Optional, annotsRenamed)})
 						ts = append(ts, target{File: cur.Path, Pkg: pkg(cur.Path), Def: rn, Kind: kd, Inner: rn, Label: te.Label + " renamed"})
+					}
+					// the same annotations written with values
+					for _, kd := range []string{"struct", "exception"} {
+						vn := fmt.Sprintf("R%d", n)
+						n++
+						cur.Defs = append(cur.Defs, &schema.Def{Kind: kd, Name: vn, Fields: fieldsOf(te.T, schema.Optional, annotsValued)})
+						ts = append(ts, target{File: cur.Path, Pkg: pkg(cur.Path), Def: vn, Kind: kd, Inner: vn, Label: te.Label + " valued"})
 					}
 					// every other declaration order of the four annotation sets (string and list<string> only)
 					if te.Label == "string" || te.Label == "list<string>" {
